@@ -239,14 +239,23 @@ nni_listener_init(nni_listener *l, nni_sock *s, nni_sp_tran *tran)
 
 	rv = l->l_ops.l_init(lp, &l->l_url, l);
 
-	if (rv == 0) {
-		rv = nni_sock_add_listener(s, l);
-	}
-
+	// Obtain the id first: once the socket has the endpoint on its
+	// list, a failure here could no longer be undone by our caller
+	// (which destroys the endpoint).
 	if (rv == 0) {
 		nni_mtx_lock(&listeners_lk);
 		rv = nni_id_alloc32(&listeners, &l->l_id, l);
 		nni_mtx_unlock(&listeners_lk);
+	}
+
+	if (rv == 0) {
+		rv = nni_sock_add_listener(s, l);
+		if (rv != 0) {
+			nni_mtx_lock(&listeners_lk);
+			nni_id_remove(&listeners, l->l_id);
+			l->l_id = 0;
+			nni_mtx_unlock(&listeners_lk);
+		}
 	}
 
 	if (rv == 0) {
